@@ -24,7 +24,9 @@ import (
 //             columns, user-supplied unique and index lists; referenced by b_tuple
 //   b_tuple : log event with a nested tuple input whose components carry column, filter_op/arg and
 //             filter_ref; top-level input and block field with filter_ref; notification; shares
-//             table tb with c_trace
+//             table tb with c_trace. Components with column + filter_ref sit under every container kind:
+//             tuple, tuple[] and tuple[2] inputs at the first level, and at the second level under
+//             tuple>tuple, tuple>tuple[] and tuple[]>tuple; the logs carry >= 1 element in every array
 //   c_trace : trace integration on the shared table, disable_unique, string filter
 // Every optional string member the decoder knows is present, so that the leaf walk visits it.
 
@@ -75,6 +77,9 @@ func c15Base() M {
 			"columns": L{
 				M{"name": "maker", "type": "bytea"}, M{"name": "token", "type": "bytea"}, M{"name": "amount", "type": "numeric"},
 				M{"name": "memo", "type": "text"}, M{"name": "extra", "type": "bytea"}, M{"name": "log_addr", "type": "bytea"}, M{"name": "tx_to", "type": "bytea"},
+				// one column per component that sits under an array-of-tuples input or two containers deep
+				M{"name": "s_tok", "type": "bytea"}, M{"name": "ss_tok", "type": "bytea"},
+				M{"name": "i_tok", "type": "bytea"}, M{"name": "i_who", "type": "bytea"}, M{"name": "p_tok", "type": "bytea"},
 			},
 		},
 		"filter_agg":   "or",
@@ -93,7 +98,16 @@ func c15Base() M {
 					"filter_ref": M{"integration": "a_refd", "table": "ta", "column": "f"}},
 				M{"name": "amount", "type": "uint256", "column": "amount", "filter_op": "gt", "filter_arg": L{"1"}},
 				M{"name": "memo", "type": "string", "column": "memo", "filter_op": "!contains", "filter_arg": L{"never"}},
+				// second level under a plain tuple: a tuple and an array of tuples
+				M{"name": "sub", "type": "tuple", "components": L{c15RefComp("stoken", "s_tok", "f")}},
+				M{"name": "subs", "type": "tuple[]", "components": L{c15RefComp("sstoken", "ss_tok", "t")}},
 			}},
+			// arrays of tuples at the first level: tuple[] (with a plain tuple at the second level) and tuple[k]
+			M{"indexed": false, "name": "items", "type": "tuple[]", "components": L{
+				c15RefComp("itoken", "i_tok", "f"),
+				M{"name": "iin", "type": "tuple", "components": L{c15RefComp("iwho", "i_who", "t")}},
+			}},
+			M{"indexed": false, "name": "pair", "type": "tuple[2]", "components": L{c15RefComp("ptoken", "p_tok", "log_addr")}},
 			M{"indexed": false, "name": "extra", "type": "bytes", "column": "extra"},
 		}},
 	}
@@ -127,6 +141,13 @@ func c15Base() M {
 		},
 		"integrations": L{igA, igB, igC},
 	}
+}
+
+// c15RefComp: an address component bound to a column and filtered by a reference into a_refd's table (the
+// component carries table and column itself: ValidateFilterRefs only fills in top-level inputs).
+func c15RefComp(name, column, refcol string) M {
+	return M{"name": name, "type": "address", "column": column, "filter_op": "contains",
+		"filter_ref": M{"integration": "a_refd", "table": "ta", "column": refcol}}
 }
 
 // ---- generic JSON tree helpers ----------------------------------------------------------------
@@ -261,11 +282,47 @@ func posClass(path []string) string {
 	s := sb.String()
 	s = strings.TrimPrefix(s, "integrations[].")
 	s = strings.Replace(s, "event.inputs[].components[].", "component.", 1)
+	s = strings.ReplaceAll(s, "components[].", "component.") // deeper levels: component.component.…
 	s = strings.Replace(s, "event.inputs[].", "input.", 1)
 	s = strings.Replace(s, "block[].", "block.", 1)
 	s = strings.Replace(s, "eth_sources[].", "source.", 1)
 	s = strings.Replace(s, "sources[].", "srcref.", 1)
 	return s
+}
+
+// c15Pos is posClass with the KIND of every enclosing container spelled out: a component of a plain tuple is
+// "component.", of a tuple[] input "component[].", of a tuple[2] input "component[2]." (two levels:
+// "component[].component.column"). tree is the unmodified tree path refers to.
+func c15Pos(tree any, path []string) string {
+	var kinds []string
+	for i, p := range path {
+		if p != "components" {
+			continue
+		}
+		kind := "?"
+		if parent, ok := getAt(tree, path[:i]); ok {
+			if m, ok := parent.(map[string]any); ok {
+				if t, ok := m["type"].(string); ok {
+					kind = strings.TrimPrefix(t, "tuple")
+				}
+			}
+		}
+		kinds = append(kinds, kind)
+	}
+	rest, out := posClass(path), ""
+	for i := 0; strings.HasPrefix(rest, "component.") && i < len(kinds); i++ {
+		out += "component" + kinds[i] + "."
+		rest = strings.TrimPrefix(rest, "component.")
+	}
+	return out + rest
+}
+
+// c15Flat erases the nesting depth of a component position ("component.component.column" -> "component.column").
+func c15Flat(pc string) string {
+	for strings.HasPrefix(pc, "component.component.") {
+		pc = strings.TrimPrefix(pc, "component.")
+	}
+	return pc
 }
 
 // ---- documents with duplicate / case-variant keys ------------------------------------------------------
@@ -441,7 +498,7 @@ func c15HyphenOnly(marker int) bool { return marker < len(c15Markers) && c15Mark
 
 // eligible: the leaf holds an identifier (definition or reference), not a field name, type, operator, …
 func c15Eligible(path []string) bool {
-	pc := posClass(path)
+	pc := c15Flat(posClass(path))
 	switch pc {
 	case "source.name", "srcref.name", "name", "table.name", "table.columns[].name", "table.unique[][]", "table.index[][]",
 		"notification.columns[]", "Dependencies[]", "input.column", "component.column", "block.column",
@@ -528,7 +585,12 @@ func findLeak(sqls []string, needles []string) (string, bool) {
 
 var (
 	c15TransferNodes = []*ref.Node{ref.Leaf("address"), ref.Leaf("address"), ref.Leaf("uint256")}
-	c15OrderNodes    = []*ref.Node{ref.Leaf("address"), ref.Tuple([]*ref.Node{ref.Leaf("address"), ref.Leaf("uint256"), ref.Leaf("string")}), ref.Leaf("bytes")}
+	c15AddrTuple     = func(dims ...int) *ref.Node { return ref.Tuple([]*ref.Node{ref.Leaf("address")}, dims...) }
+	c15OrderNodes    = []*ref.Node{ref.Leaf("address"),
+		ref.Tuple([]*ref.Node{ref.Leaf("address"), ref.Leaf("uint256"), ref.Leaf("string"), c15AddrTuple(), c15AddrTuple(0)}),
+		ref.Tuple([]*ref.Node{ref.Leaf("address"), c15AddrTuple()}, 0),
+		c15AddrTuple(2),
+		ref.Leaf("bytes")}
 )
 
 func c15Transfer(emitter, from, to []byte, value uint64) *simeth.Log {
@@ -540,12 +602,29 @@ func c15Transfer(emitter, from, to []byte, value uint64) *simeth.Log {
 	}
 }
 
-func c15Order(emitter, maker, token []byte, amount uint64, memo string, extra []byte) *simeth.Log {
+// c15Order: the array-of-tuples inputs carry nItems (>= 1) elements (items, item.subs) resp. the fixed two
+// (pair); element addresses alternate between token and maker, so that some look-ups match rows
+// of ta and some do not.
+func c15Order(emitter, maker, token []byte, amount uint64, memo string, extra []byte, nItems int) *simeth.Log {
+	a := func(i int) ref.Value {
+		if i%2 == 0 {
+			return world.AddrWord(token)
+		}
+		return world.AddrWord(maker)
+	}
+	one := func(i int) ref.Value { return []any{a(i)} }              // (address)
+	two := func(i int) ref.Value { return []any{a(i), one(i + 1)} } // (address,(address))
+	var subs, items []any
+	for i := 0; i < nItems; i++ {
+		subs = append(subs, one(i+1))
+		items = append(items, two(i))
+	}
 	return &simeth.Log{
 		Address: emitter,
 		Topics:  [][]byte{ref.Topic0("Order", c15OrderNodes), world.AddrWord(maker)},
 		Data: ref.EncodeInputs(c15OrderNodes[1:], []ref.Value{
-			[]any{world.AddrWord(token), world.U(amount), []byte(memo)}, extra}),
+			[]any{world.AddrWord(token), world.U(amount), []byte(memo), one(0), subs},
+			items, []any{one(0), one(1)}, extra}),
 		Tag: "b_tuple",
 	}
 }
@@ -612,9 +691,9 @@ func c15Block(host string, i int, salt uint64, h *chainHostile) simeth.BlockSpec
 		if h.at("log.address") {
 			oemit = padAddr(h.Marker)
 		}
-		tx0.Logs = append(tx0.Logs, c15Order(oemit, maker, token, uint64(5+i), memo, extra))
+		tx0.Logs = append(tx0.Logs, c15Order(oemit, maker, token, uint64(5+i), memo, extra, 1+i%2))
 		// a second order that matches nothing in ta (filtered out unless a reference matches)
-		tx1.Logs = append(tx1.Logs, c15Order(simeth.Addr(seed+"/other"), simeth.Addr(seed+"/nomaker"), simeth.Addr(seed+"/notoken"), 0, "never", []byte("x")))
+		tx1.Logs = append(tx1.Logs, c15Order(simeth.Addr(seed+"/other"), simeth.Addr(seed+"/nomaker"), simeth.Addr(seed+"/notoken"), 0, "never", []byte("x"), 1))
 	}
 	return simeth.BlockSpec{Txs: []simeth.TxSpec{tx0, tx1}}
 }
